@@ -318,6 +318,23 @@ for _k, _v in EXTRA3.items():
 for _k, _v in EXTRA4.items():
     if _v:
         EXTRA[_k] = EXTRA[_k] + " Fourth round: " + _v
+EXTRA7 = {
+    "C01": "(R3+) the whole-file read ends its data through the same terminator routine as the chunked read.",
+    "C03": "(R12) what was written is read back through the right-aligned digit matrix (clauses of C18-R3).",
+    "C06": "(R9) item assignment stores the value's own codes only after re-targeting or under a comparison of the two encodings; codes are re-used under another alphabet only after a positional comparison (membership of letters is a recognised wrong form).",
+    "C07": "(R10) an index is cast to an integer array in __getitem__/__setitem__ only for empty lists or non-boolean data; own-codes clause of C06-R9.",
+    "C09": "(R8) no first == last shortcut over an ungrouped column; tables indexed by chromosome codes are laid out in encoding-label order, never dict iteration order.",
+    "C10": "(R11) compatibility of two genome contexts includes an order-sensitive comparison; first == last shortcut; code-indexed tables.",
+    "C11": "(R9) the length test of neighbouring ragged keys is two-sided; order-sensitive context compatibility; dict caches and first == last shortcuts in the stream modules.",
+    "C12": "(R10) two-sided length test of ragged keys; dict caches of decoded keys name the encoding object itself (not its class); first == last shortcuts.",
+    "C14": "(R8) positional (not membership) comparison before codes are re-used under another alphabet; code-indexed tables in the sequence readers.",
+    "C15": "(R8) a sign is neutralised at column 0 only, so a '-' elsewhere stays an invalid digit and is reported.",
+    "C17": "(R8) tables indexed by chromosome codes in the FASTA-backed sequence classes are in label order.",
+    "C18": "(R12) sign at column 0 only; the join of lazily read chunks computes offsets and data from the same (uncompacted) buffers (C02-R10).",
+    "C19": "(R11) a pandas column is converted positionally (no label-based s[i] over range(len(s))); index casts.",
+}
+for _k, _v in EXTRA7.items():
+    EXTRA[_k] = EXTRA[_k] + " Seventh round: " + _v
 for _k, _v in EXTRA.items():
     CLAIMS[_k]["text"] += " " + _v + (" (T1) In the functions of the property's anchor files no quantified test flipped between `all` and `any` on the same argument and no "
                                        "parameter that was read is now ignored, relative to the instances confirmed on the reference tree. (T2, observation only) small edits of the property's mechanism functions (operator / bound / constant / name substitution, deleted statement, new early exit) "
